@@ -186,6 +186,26 @@ class Oracle:
             plan = plan[:i] + [plan[i] + 1]
 
 
+def other_rng_used(fn):
+    """True if calling fn() advances the state of Python's or numpy's global generator (used to recognise randomness that does not
+    pass through the oracle's two primitives, e.g. getrandbits or numpy): run OUTSIDE any oracle"""
+    s0 = _random.getstate()
+    try:
+        import numpy as _np
+        n0 = _np.random.get_state()
+        n0 = (n0[1].tobytes(), n0[2])
+    except Exception:
+        _np, n0 = None, None
+    fn()
+    if _random.getstate() != s0:
+        return True
+    if _np is not None:
+        n1 = _np.random.get_state()
+        if (n1[1].tobytes(), n1[2]) != n0:
+            return True
+    return False
+
+
 def shuffle_plan_for(target_perm):
     """Fisher-Yates (CPython: for i in reversed(range(1,n)): j=randbelow(i+1); swap) choices
     that turn the identity arrangement [0..n-1] into `target_perm` (list: position -> original index)."""
